@@ -36,7 +36,7 @@ from .geom import Geometry
 from .math import affine_from_axis, maybe_int, resolution_from_affine
 from .overlap import compute_output_geobox
 from .roi import roi_is_empty
-from .types import Resolution, SomeResolution, SomeShape, xy_
+from .types import Resolution, SomeResolution, SomeShape, resxy_, xy_
 
 # pylint: disable=import-outside-toplevel
 # pylint: disable=too-many-lines
@@ -504,15 +504,20 @@ def _extract_transform(
     except ValueError:
         # This can fail when any dimension is shorter than 2 elements
         # Figure out fallback resolution if possible and try again
-        if crs_coord is None:
-            return None
-        if (original_transform := _extract_geo_transform(crs_coord)) is None:
-            return None
+        if gcp or _xx.encoding.get("_transform", None) is not None:
+            # GCP and non-axis aligned case: coordinates are in pixel space, 1 pixel apart
+            fallback_resolution = resxy_(1, 1)
+        else:
+            if crs_coord is None:
+                return None
+            if (original_transform := _extract_geo_transform(crs_coord)) is None:
+                return None
+            fallback_resolution = resolution_from_affine(original_transform)
         try:
             transform = affine_from_axis(
                 _xx.values,
                 _yy.values,
-                resolution_from_affine(original_transform),
+                fallback_resolution,
             )
         except ValueError:
             return None
